@@ -132,7 +132,8 @@ func VC20Lexer() {
 func VC20Attachment() {
 	size, lim := vParam("size"), vParam("lim")
 	data := vSymBytes("data", size, size)
-	sink := &vSink{failAt: -1}
+	// the sink is sized up front so that (natively) its growth is not counted inside the limited windows
+	sink := &vSink{failAt: -1, b: make([]byte, 0, size+4096)}
 	w, err := NewWriter(sink, vOptions(vParam("cfg"), 0, 1000))
 	vAssert(err == nil, "NewWriter")
 	vAssert(w.WriteHeader(&Header{}) == nil, "header")
